@@ -18,8 +18,8 @@ RULE = ("operation sequences over {push k, pop, peek, decrease(i-th live item: b
 ASSUMPTIONS = ["pop/peek on an empty heap are not driven (the property speaks of live items)",
                "remove() and decrease_key() are only called with nodes that are live members, as their docstrings require",
                "reference = sorted-list model in gv/props/c16.py"]
-MINIMUMS = {"quick": {"invariant_evaluations": 100000, "pops_judged": 50000, "decrease_ops": 20000, "remove_ops": 20000, "helper_calls": 4000},
-            "thorough": {"invariant_evaluations": 2000000, "pops_judged": 1000000, "decrease_ops": 400000, "remove_ops": 400000}}
+MINIMUMS = {"quick": {"pops_or_peeks_with_a_root_of_degree_above_log2_n": 200, "invariant_evaluations": 100000, "pops_judged": 50000, "decrease_ops": 20000, "remove_ops": 20000, "helper_calls": 4000},
+            "thorough": {"pops_or_peeks_with_a_root_of_degree_above_log2_n": 5000, "invariant_evaluations": 2000000, "pops_judged": 1000000, "decrease_ops": 400000, "remove_ops": 400000}}
 
 KINDS = ["min-keyfn", "min-plain", "max", "max-keyfn"]
 
@@ -156,7 +156,7 @@ def _options(live, kind):
 def _live_after(live, op):
     if op[0] == "push":
         return live + 1
-    if op[0] in ("pop", "rem"):
+    if op[0] in ("pop", "rem", "thin"):
         return live - 1
     return live
 
@@ -206,6 +206,28 @@ def gen_cases(spec, ctx):
             live = m
             ops.append(["pop"])
             live -= 1
+        if pattern < 0.2:
+            # thinning: 2**k+1 pushes and one pop leave a single binomial tree; "thin" then removes, guided by the live structure,
+            # the largest child of every inner node that can still lose one without a cascading cut (and whatever that spills),
+            # until the tree has as few nodes as a tree of its root degree can have (Fibonacci number, e.g. 13 nodes under a
+            # root of degree 5): root degrees then exceed log2(n). A few pushes / pops then consolidate over the thin tree.
+            k = r.choice([3, 4, 5, 5, 6, 6, 7])
+            m = 2 ** k + 1
+            ops = [["push", (i if keyspace > 10 else r.randrange(keyspace))] for i in range(m)]
+            ops.append(["pop"])
+            live = m - 1
+            full = 2 ** k - [1, 2, 3, 5, 8, 13, 21, 34, 55][k]
+            for _ in range(r.choice([full, full, full + 2, r.randint(full // 2, full)])):
+                ops.append(["thin", r.randrange(1 << 16)])
+            live = max(1, live - full - 2)      # (a lower bound: surplus "thin" ops are no-ops)
+            for _ in range(r.randint(1, 4)):
+                ops.append(["push", r.choice([-5, m + 5, r.randrange(keyspace)])])
+                live += 1
+                if r.random() < 0.7 and live > 1:
+                    ops.append(["pop"])
+                    live -= 1
+                    ops.append(["peek"])
+            n = len(ops) + r.choice([0, 2, 6])
         while len(ops) < n:
             x = r.random()
             if live == 0 or x < 0.3:
@@ -222,6 +244,36 @@ def gen_cases(spec, ctx):
                 ops.append(["rem", r.randrange(live)])
                 live -= 1
         yield {"kind": kind, "ops": ops}
+
+
+def _thin_choice(heap, handles, live, idx):
+    """Which live item to remove next so that the biggest tree gets thinner without losing root degree (see gen_cases)."""
+    try:
+        roots = list(heap._roots)
+        if not roots:
+            return None
+        big = max(roots, key=lambda nd: nd.degree)
+
+        def root_of(nd):
+            while nd.parent is not None:
+                nd = nd.parent
+            return nd
+        outside = [v for v in live if root_of(handles[v]) is not big]
+        if outside:
+            return outside[idx % len(outside)]
+        cands = []
+        for v in live:
+            c = handles[v]
+            p = c.parent
+            if p is None or p.parent is None or p.mark:
+                continue
+            if c.degree == max(s.degree for s in p.children):
+                cands.append(v)
+        if not cands:
+            return None
+        return cands[idx % len(cands)]
+    except AttributeError:
+        return None
 
 
 def run_ops(kind, ops, ctx=None):
@@ -293,11 +345,17 @@ def run_ops(kind, ops, ctx=None):
                 ctx.count("decrease_ops")
                 if handles[u].parent is not None:
                     ctx.count("decrease_on_inner_node_kept_in_place")
-        elif name == "rem":
+        elif name in ("rem", "thin"):
             live = sorted(model)
             if not live:
                 continue
             u = live[op[1] % len(live)]
+            if name == "thin":
+                u = _thin_choice(heap, handles, live, op[1])
+                if u is None:
+                    continue            # nothing left to thin (or another representation): no-op
+                if ctx is not None:
+                    ctx.count("thinning_removes")
             if ctx is not None:
                 ctx.count("remove_ops")
                 if handles[u].parent is not None:
@@ -309,6 +367,13 @@ def run_ops(kind, ops, ctx=None):
             del handles[u]
             dirty = True
         # quiescent point: size agreement (the icontract invariant has already run inside each call)
+        if ctx is not None and name in ("pop", "peek") and model:
+            try:
+                deg = max((nd.degree for nd in heap._roots), default=0)
+                if deg > len(model).bit_length():
+                    ctx.count("pops_or_peeks_with_a_root_of_degree_above_log2_n")
+            except AttributeError:
+                pass
         if len(heap) != len(model) or bool(heap) != bool(model):
             return {"kind": "size-mismatch", "step": step, "op": op, "len": len(heap), "bool": bool(heap), "live": len(model)}
     # drain: everything left must come out in order
